@@ -1,6 +1,7 @@
 import Qryn.Sql.Build
 import Qryn.Base.Time
 import Qryn.TraceQL.Ast
+import Qryn.TraceQL.Units
 /-! Model of reader/traceql/transpiler/clickhouse_transpiler for `Plan`:
     planner.go (plan, planComplex), expression_planner_simple.go (check, analyze, analyzeCond, analyzeAgg,
     planner), expression_planner_complex.go, init.go, attr_condition.go (getTerm*, getCond, aggregator,
@@ -41,17 +42,15 @@ def TUnit.nanos : TUnit → Option Nat
   | .ns => some 1 | .us => some 1000 | .ms => some 1000000 | .s => some 1000000000
   | .m => some 60000000000 | .h => some 3600000000000 | .d => none
 
-/-- `time.ParseDuration(num ++ unit).Nanoseconds()` for one number and at most one unit
-    (few digits: no overflow; the fraction is truncated to whole nanoseconds as Go does) -/
+/-- `time.ParseDuration(num ++ unit).Nanoseconds()` for one number and at most one unit: `Units.goParseDuration` (the function
+    of package time step by step, overflow checks included; `Units.goParseDuration_unit`: the exact value of the literal in
+    whole nanoseconds, refused when it does not fit an int64) -/
 def parseDuration (n : Num) (u : Option TUnit) : PlanM Int :=
-  match u with
-  | none => if n.int = [0] ∧ n.dot = false ∧ n.frac = [] then pure 0 else throw "time: missing unit in duration"
-  | some u =>
-    match u.nanos with
-    | none => throw "time: unknown unit in duration"
-    | some k =>
-      let v : Nat := natOfDigits n.int * k + (natOfDigits n.frac * k) / 10 ^ n.frac.length
-      pure (if n.neg then -(v : Int) else v)
+  match Units.goParseDuration n u with
+  | .ok ns => pure ns
+  | .error .invalid => throw "time: invalid duration"
+  | .error .missingUnit => throw "time: missing unit in duration"
+  | .error .unknownUnit => throw "time: unknown unit in duration"
 
 /-! ### attr_condition.go -/
 def stripPrefix (p s : String) : Option String :=
@@ -299,7 +298,7 @@ def aggregatorSql (pfx : String) : AggFn → Expr
 def aggCmpText (a : Agg) : PlanM String :=
   if a.attr = "duration" then do
     let ns ← parseDuration a.num a.unit
-    pure (toString ns ++ ".000000")
+    pure (Units.f64Text ns)
   else match a.unit with
     | some _ => throw "strconv.ParseFloat: invalid syntax"
     | none => pure (numText a.num)
